@@ -303,7 +303,10 @@ def qd_run(ctx):
             _, blocks = _ret_variants(fj, 0)
             ra = set(v for bb, v in blocks.items() if edom(fj, rdy, bb))
             rb = set(v for bb, v in blocks.items() if edom(fj, pend, bb))
-            if ra == {'Ready'} and rb == {'Pending'}:
+            whole = fj.expr_of_local(0)
+            if whole[0] == 'call' and whole[1].endswith(('poll_unpin', 'Future::poll')) and len(whole) > 3 and whole[3] == polls[0][0]:
+                out.append(ok(R, key, 'returns the future\'s own answer', fn=fj.name))
+            elif ra == {'Ready'} and rb == {'Pending'}:
                 out.append(ok(R, key, 'Ready when the future is Ready, Pending when it is Pending', fn=fj.name))
             else:
                 out.append(bad(R, key, 'FutureJob::run reports %s when its future is Ready and %s when it is Pending: a suspended operation is treated as finished (and dropped), or a finished one is polled again' % (sorted(str(x) for x in ra), sorted(str(x) for x in rb)), fn=fj.name))
